@@ -36,7 +36,7 @@ def run(rep):
     rep.bounds["generation"] = meta
     rep.bounds["clash"] = cmeta
     outs = corpus.run_forms(jobs)
-    sub, acc, rejected = _rp.validate(rep, PROP, outs, "TLC-generated accepted forms")
+    sub, acc, rejected = _rp.validate(rep, PROP, outs, "TLC-generated accepted forms", src="ok")
     outs2 = corpus.run_forms(cj)
     sub2, acc2, rejected2 = _rp.validate(rep, PROP, outs2, "TLC-generated name-collision forms")
     for o, l, clause in rejected + rejected2:
